@@ -1,9 +1,10 @@
-//! Async RwLock model: reader count + writer flag + waiter wakers.
-use std::cell::{Cell, RefCell, UnsafeCell};
+//! Async RwLock MODEL: reader count + writer flag + a `waiting` flag (single
+//! task: see `crate::model`).
+use std::cell::{Cell, UnsafeCell};
 use std::future::Future;
 use std::ops::{Deref, DerefMut};
 use std::pin::Pin;
-use std::task::{Context, Poll, Waker};
+use std::task::{Context, Poll};
 
 #[derive(Debug)]
 pub struct TryLockError(());
@@ -11,7 +12,7 @@ pub struct TryLockError(());
 pub struct RwLock<T> {
     readers: Cell<usize>,
     writer: Cell<bool>,
-    waiters: RefCell<Option<Waker>>,
+    waiting: Cell<bool>,
     value: UnsafeCell<T>,
 }
 unsafe impl<T: Send> Send for RwLock<T> {}
@@ -26,14 +27,14 @@ impl<T> RwLock<T> {
         RwLock {
             readers: Cell::new(0),
             writer: Cell::new(false),
-            waiters: RefCell::new(None),
+            waiting: Cell::new(false),
             value: UnsafeCell::new(value),
         }
     }
     fn wake_all(&self) {
-        let w = self.waiters.borrow_mut().take();
-        if let Some(w) = w {
-            w.wake();
+        if self.waiting.get() {
+            self.waiting.set(false);
+            crate::model::wake();
         }
     }
     pub fn read(&self) -> ReadFut<'_, T> {
@@ -70,11 +71,11 @@ pub struct ReadFut<'a, T> {
 }
 impl<'a, T> Future for ReadFut<'a, T> {
     type Output = RwLockReadGuard<'a, T>;
-    fn poll(self: Pin<&mut Self>, cx: &mut Context<'_>) -> Poll<Self::Output> {
+    fn poll(self: Pin<&mut Self>, _cx: &mut Context<'_>) -> Poll<Self::Output> {
         match self.l.try_read() {
             Ok(g) => Poll::Ready(g),
             Err(_) => {
-                *self.l.waiters.borrow_mut() = Some(cx.waker().clone());
+                self.l.waiting.set(true);
                 Poll::Pending
             }
         }
@@ -85,11 +86,11 @@ pub struct WriteFut<'a, T> {
 }
 impl<'a, T> Future for WriteFut<'a, T> {
     type Output = RwLockWriteGuard<'a, T>;
-    fn poll(self: Pin<&mut Self>, cx: &mut Context<'_>) -> Poll<Self::Output> {
+    fn poll(self: Pin<&mut Self>, _cx: &mut Context<'_>) -> Poll<Self::Output> {
         match self.l.try_write() {
             Ok(g) => Poll::Ready(g),
             Err(_) => {
-                *self.l.waiters.borrow_mut() = Some(cx.waker().clone());
+                self.l.waiting.set(true);
                 Poll::Pending
             }
         }
